@@ -83,6 +83,10 @@ func runC08(tier string, seed uint64, o *Out) error {
 		ops := genTimeOps(rng, c.slide, c.ooo, n, nil, far)
 		if i%25 == 3 {
 			ops = overflowThenQuiet(rng, c.slide, nil)
+		} else if i%9 == 4 {
+			// a pause of several thousand slides in the middle of the history
+			jumpOps(ops, int64(n/3), c.slide*int64(4100+rng.Intn(40000)))
+			o.Count("long pause in event time (> 4096 slides)")
 		}
 		scaleOps(ops, unit)
 		tag := fmt.Sprintf("size=%d slide=%d", c.size, c.slide)
